@@ -123,6 +123,13 @@ def scenario(t, nb):
     alive = [True, True, True]
     dead2 = bool(sh("f2dead", 0))
     expect = [[], [], []]                    # per module: tags of the data frames it must receive, in order
+
+    def notice():
+        # a manager-originated notice (CLIENT_CLOSED / FAILED_MESSAGE) goes to every ALL subscriber: a dead one is discovered by it
+        if dead2 and alive[1] and state[1] == 2:
+            alive[1] = False
+            state[1] = 0
+
     for k in order:
         if not alive[k]:
             continue                         # removed while an earlier socket was serviced: its frame is skipped
@@ -138,6 +145,7 @@ def scenario(t, nb):
         elif kind == "disc":
             alive[k] = False
             state[k] = 0
+            notice()
         else:
             # a control frame: the acknowledgement is written to the sender; a dead connection is discovered there
             if kind == "sub" or kind == "resume":
